@@ -50,6 +50,17 @@ def programs(tier):
             "(lambda M: ((M + 1).a + (M * 2).c) * (M.abs().a))(L.fillna(0))",
             "(lambda M: (M.a + M.c).to_frame('s').assign(t=lambda d: d.s * 2))(L.rename(columns={'b': 'bb'}))",
         ]
+        # loc / partition selections inside fusable chains need sources with known divisions
+        srcK = Src("L", nrows, LCOLS, nparts, how="delayed", cuts=tuple(int(round(i * nrows / nparts)) for i in range(nparts + 1)), divisions=tuple(10 * i for i in range(nparts + 1)))
+        for s_ in ("(L + 1).loc[12:25] * 2", "(L + 1).loc[5:] * 2", "((L * 2).loc[:15] + 1).a", "(L.fillna(0) + 1).partitions[[1]] * 2", "((L + 1).loc[12:] - 1).abs()"):
+            if nparts >= 2:
+                progs.append(Program(s_, [srcK], ordered=True, family="F14", note="loc-in-chain"))
+        # an already optimised collection used inside a larger query (nested fused groups, broadcast of an optimised scalar)
+        shapes += [
+            "(L.a + ((L.c.sum() + 3) + 1) * 2)",
+            "(lambda S: (L.a + S) + 1)(((L.c.sum() + 1) * 2).optimize())",
+            "(lambda A, B: (A + B) * 2)((L + 1).optimize(), (R[['a', 'b']].repartition(npartitions=L.npartitions) * 2).optimize()[['a', 'b']])" if False else "(lambda A: (A * 2).a + A.c)((L + 1).optimize())",
+        ]
         for s in shapes:
             srcs = [srcL, srcR] if "R" in s else [srcL]
             import dask_expr as dx
